@@ -181,7 +181,8 @@ def check_index_spaces(chk, tus, it, tabs):
                                             (0, M.global_get(0), [2])])
     for pretty in (0, 1):
         body3 = c06.split_functions(c06.inits_text(it2, mk3, pretty=pretty)).get('modInitTables', '')
-        tgt3 = [(t, (re.sub(r'[\s()]', '', k[0]), k[1]) if isinstance(k, tuple) else k, f) for t, k, f in c06.element_stores(body3)]
+        tgt3 = [(t, (re.sub(r'[\s()]', '', re.sub(r'\(\s*(?:U32|unsigned int)\s*\)', '', k[0])), k[1]) if isinstance(k, tuple) else k, f)
+                for t, k, f in c06.element_stores(body3)]      # a cast of the i32 global to the U32 offset variable changes nothing
         g = '*i->env__base'
         want3 = [('i->t0', 2, 'f1'), ('i->t0', (g, 0), 'env__imp0'), ('i->t0', (g, 1), 'f2'), ('i->t0', 1, 'f1'), ('i->t0', (g, 0), 'f2')]
         chk.expect(tgt3 == want3, 'R04.4', 'element-target:mixed-offsets%s' % (',pretty' if pretty else ''),
